@@ -59,6 +59,7 @@ type c02Case struct {
 	LeafList bool        `json:"leaf_list,omitempty"`
 	Grouping bool        `json:"grouping,omitempty"`
 	Uses     int         `json:"uses"`
+	Decoy    bool        `json:"decoy,omitempty"` // a sibling container defines unrelated typedefs with the same names first
 	Lo       int         `json:"lo"` // bounds of the base type as far as the generator uses them
 	Hi       int         `json:"hi"`
 }
@@ -100,6 +101,7 @@ func c02Gen(t *rapid.T) c02Case {
 		c.Uses = rapid.IntRange(1, 3).Draw(t, "uses")
 	}
 	c.LeafList = c.Base != "empty" && rapid.IntRange(0, 4).Draw(t, "leaf-list") == 0
+	c.Decoy = rapid.Bool().Draw(t, "decoy")
 	nl := rapid.IntRange(0, 4).Draw(t, "levels")
 	// scopes, outermost first
 	ranks := []string{"import", "module", "outer", "inner"}
@@ -484,6 +486,21 @@ func (c c02Case) files() map[string]string {
 	m.WriteString(" typedef um {\n  type int8;\n  default \"7\";\n  units \"um-units\";\n }\n")
 	m.WriteString(c.typedefs("module", " "))
 	fmt.Fprintf(&m, " leaf tgt {\n  %s\n }\n", c.targetType())
+	if c.Decoy {
+		// same typedef names in a scope that is neither an ancestor nor a descendant of the real ones: legal, unrelated
+		m.WriteString(" container decoy {\n")
+		n := 0
+		for _, l := range c.Lvls {
+			if l.Name != "" && (l.Scope == "outer" || l.Scope == "inner" || l.Scope == "grouping") {
+				fmt.Fprintf(&m, "  typedef %s {\n   type string { length \"0..3\"; }\n   default \"dcy\";\n   units \"decoy-units\";\n  }\n  leaf d%d {\n   type %s;\n  }\n", l.Name, n, l.Name)
+				n++
+			}
+		}
+		if n == 0 {
+			m.WriteString("  leaf d { type string; }\n")
+		}
+		m.WriteString(" }\n")
+	}
 	m.WriteString(" container outer {\n")
 	m.WriteString(c.typedefs("outer", "  "))
 	fmt.Fprintf(&m, "  leaf sib0 {\n   %s\n  }\n", c.targetType())
@@ -689,6 +706,7 @@ func c02Run(c c02Case, o *hx.Obs) {
 	o.Class("base=%s", kind)
 	o.Class("levels=%d", len(c.Lvls)-1)
 	o.Class("uses=%d grouping=%v", c.Uses, c.Grouping)
+	o.Class("decoy=%v", c.Decoy)
 	scopes := map[string]bool{}
 	for _, l := range c.Lvls {
 		if l.Name != "" {
@@ -927,7 +945,7 @@ func c02CheckLeaf(c c02Case, leaf meta.Leafable, fail func(clause, f string, a .
 
 var c02Types = hx.Register(&hx.Check[c02Case]{
 	Name: "c02-derivation",
-	Rule: "a leaf or leaf-list whose type is a chain of 0-4 typedefs over every built-in base (8 integer types, decimal64, string, binary, boolean, empty, enumeration, bits, union, leafref, identityref), the typedefs placed in an imported module, a submodule, the module, an enclosing container, the leaf's own container or its grouping; each level may narrow range / length, add a pattern, keep a subset of enums / bits, and state default and units; the leaf sits inline or in a grouping used 1-3 times; checked per expansion: format, acceptance of boundary probes by Range()/Length(), accumulated patterns, enum values and bit positions by the RFC numbering rule, union members, leafref path and target type, the identities accepted, fraction-digits, and default / units from the leaf else the nearest typedef; non-trivial = two or more typedef levels, a second use, or a typedef in another file",
+	Rule: "a leaf or leaf-list whose type is a chain of 0-4 typedefs over every built-in base (8 integer types, decimal64, string, binary, boolean, empty, enumeration, bits, union, leafref, identityref), the typedefs placed in an imported module, a submodule, the module, an enclosing container, the leaf's own container or its grouping; each level may narrow range / length, add a pattern, keep a subset of enums / bits, and state default and units; the leaf sits inline or in a grouping used 1-3 times; half of the modules first define unrelated typedefs of the same names in a sibling scope; checked per expansion: format, acceptance of boundary probes by Range()/Length(), accumulated patterns, enum values and bit positions by the RFC numbering rule, union members, leafref path and target type, the identities accepted, fraction-digits, and default / units from the leaf else the nearest typedef; non-trivial = two or more typedef levels, a second use, or a typedef in another file",
 	Gen:  c02Gen,
 	Run:  c02Run,
 })
